@@ -3,6 +3,7 @@
 // case.  Every case runs under catch_unwind; a panic is the outcome `PANIC`.
 mod codec;
 mod eff;
+mod rm;
 
 use std::io::{BufRead, BufWriter, Write};
 use std::panic::{catch_unwind, AssertUnwindSafe};
@@ -11,6 +12,7 @@ fn run_case(toks: &[&str]) -> String {
     match toks.first().copied() {
         Some("eff") => eff::run_eff(toks),
         Some("effnew") => eff::run_effnew(toks),
+        Some("rm") => rm::run_rm(toks),
         _ => "?unknown-case".to_string(),
     }
 }
